@@ -1438,7 +1438,19 @@ impl<'a> Parser<'a> {
             let then_branch = self.parse_expr()?;
             self.skip_ws();
 
-            let else_branch = self.parse_else_branch()?;
+            // Each `elif` nests one `Expr::If` deeper and recurses here without
+            // passing `parse_primary`'s guard; charge it as one nesting level.
+            self.expr_depth += 1;
+            let else_branch = if self.expr_depth > MAX_EXPR_DEPTH {
+                Err(ParseError::new(
+                    format!("expression nesting exceeds depth limit of {MAX_EXPR_DEPTH}"),
+                    self.pos,
+                ))
+            } else {
+                self.parse_else_branch()
+            };
+            self.expr_depth -= 1;
+            let else_branch = else_branch?;
 
             Ok(Expr::If {
                 cond: Box::new(cond),
